@@ -281,6 +281,7 @@ def hdl21_naming_encoder(obj: Any) -> Any:
     from .instance import Instance
     from .generator import Generator
     from .primitives import Primitive, PrimitiveCall
+    from .prefix import Prefixed
 
     if isinstance(obj, (Instance,)):
         # Not supported as parameters
@@ -306,6 +307,11 @@ def hdl21_naming_encoder(obj: Any) -> Any:
         # (Negative zero equals zero, and is named like it.)
         zero = lambda v: 0.0 if isinstance(v, float) and v == 0 else v
         return {f.name: zero(getattr(obj, f.name)) for f in dataclasses.fields(obj)}
+
+    # Equal `Prefixed` values are named alike, however they were written.
+    if isinstance(obj, Prefixed):
+        number, prefix = obj.canonical()
+        return {"number": number, "prefix": prefix}
 
     # Sets have no order of their own, and their iteration order varies between processes.
     # Name them by their sorted, encoded elements.
